@@ -59,14 +59,13 @@ def queries(tier):
                        bounds='buffer length == %d, literal length == %d' % (L, K)))
     qs.append(dict(name='hex_char', unit='json', harness='h_reader.c', defs={'OP': 5, 'LEN': 0}, unwind=26, timeout=300, mem_gb=3,
                    desc='value_for_hex_char on all 256 byte values', bounds='all 256 values'))
-    TNAMES = {1: '[]+WS', 2: '{}+WS', 3: '[ ]+WS', 4: '{ }+WS', 5: '[7,8]+WS', 6: '{"k":7}+WS', 7: '[7,]+WS', 8: '{"k":7,}+WS', 9: '0xC+H', 10: '-+D1+D+D',
-              11: '5e-+D', 12: '5E-+D', 13: '1e+D', 14: '1e++D', 15: '2.+D+D', 16: '{1:2}+WS', 17: 'null+WS', 18: 'true+WS', 19: 'false+WS', 20: 'n+WS', 21: 't+WS',
-              22: 'f+WS', 23: '//c\\n7+WS', 24: '7 +L (both entry points)'}
-    tq = [1, 2, 7, 9, 11, 13, 16, 20, 24] if tier == 'quick' else sorted(TNAMES)
+    TNAMES = {1: '[]+WS', 2: '{}+WS', 3: '[ ]+WS', 4: '{ }+WS', 5: '[7,8]+WS', 7: '[7,]+WS', 10: '-+D1+D+D', 11: '5e-+D', 12: '5E-+D', 15: '2.+D+D', 16: '{1:2}+WS',
+              17: 'null+WS', 18: 'true+WS', 19: 'false+WS', 20: 'n+WS', 21: 't+WS', 22: 'f+WS', 23: '//c\\n7+WS', 24: '7 +L (both entry points)'}
+    tq = [1, 2, 7, 11, 16, 20, 24] if tier == 'quick' else sorted(TNAMES)
     for t in tq:
         for st in (0, 1):
             qs.append(dict(name='tmpl%02d_strict%d' % (t, st), unit='json', harness='h_tmpl.c', defs={'TPL': t, 'STRICT': st}, unwind=12,
-                           unwindset=parse_unwindset(9, 1, elems=2), object_bits=12, timeout=900, mem_gb=(14 if t in (6, 8, 13, 14) else 6),
+                           unwindset=parse_unwindset(9, 1, elems=2), object_bits=12, timeout=900, mem_gb=6,
                            desc='JSON::parse(%s) on the templated document %s (concrete skeleton + trailing holes of one lexical class each): expected acceptance / kind / value / exception type' % ('strict' if st else 'default', TNAMES[t]),
                            bounds='template %s, mode %s, every value of the holes' % (TNAMES[t], 'strict' if st else 'default')))
     if os.environ.get('C05_PROBES'):
